@@ -396,7 +396,8 @@ def sumproduct(*args):
 
     # return the sum product, as a python number (a numpy scalar is not a number
     # to the functions which later get it from a cell)
-    return np.sum(np.prod(values, axis=0)).item()
+    result = np.sum(np.prod(values, axis=0))
+    return result.item() if isinstance(result, np.generic) else result
 
 
 @excel_math_func
